@@ -19,6 +19,7 @@ DECIDES = (
     "points and length; DiscreteCurve.discretize, evaluated on symbolic points, returns the inclusive range between the two "
     "parameters in the requested direction (C16.END-PAIRING); every concrete curve class provides the four abstract methods with "
     "compatible signatures and every discretize includes both end parameters (C16.INTERFACE)."
+    " 'parameter not given' is decided with 'is None', never by truth value, so 0 is a parameter (C16.NONE-TESTS); nothing computed from movable coordinates is memoised (C16.NO-MEMO)."
 )
 NOT_DECIDED = "additivity of lengths, optimality of the closest parameter, interpolation accuracy (numerics)."
 ASSUMPTIONS = ["np.linspace(a, b, num=n) includes both end points unless endpoint=False is passed"]
